@@ -334,6 +334,9 @@ fn copy_meta(cmd: &Value, ev: &mut Map<String, Value>) {
     if let Some(m) = cmd.get("light") {
         ev.insert("light".into(), m.clone());
     }
+    if let Some(m) = cmd.get("bad") {
+        ev.insert("bad".into(), m.clone());
+    }
 }
 
 /// callback record: (argument, planned return)
@@ -487,6 +490,10 @@ fn op_sign<H: HashChain + 'static>(d: &mut Driver, cmd: &Value) {
     }
     if let Some(s) = &mem_after {
         d.store(cmd, "next", s);
+    }
+    if cb.calls.iter().any(|(_, r)| *r == "crash") {
+        // the injected crash unwound the "process": in-memory key objects do not survive it
+        d.mem.clear();
     }
     d.store(cmd, "msg_out", &msg);
     d.store(cmd, "aux", &aux_buf[..aux_len.min(aux_buf.len())]);
@@ -919,6 +926,14 @@ fn run(scenario: &str, out: &str, seed: u64, heartbeat: Arc<AtomicU64>) {
                 d.mem.clear();
                 let mut ev = Map::new();
                 ev.insert("ev".into(), json!("reset"));
+                copy_meta(&cmd, &mut ev);
+                d.emit(Value::Object(ev));
+            }
+            // the process "dies": every in-memory SigningKey object is gone, slots (storage) stay
+            "crash" => {
+                d.mem.clear();
+                let mut ev = Map::new();
+                ev.insert("ev".into(), json!("crash"));
                 copy_meta(&cmd, &mut ev);
                 d.emit(Value::Object(ev));
             }
